@@ -2,7 +2,7 @@ CONSTANTS
   Dbs = {"a", "b"}
   Keys = {"k1", "k2", "k3"}
   Primary = "p"
-  MaxLen = 5
+  MaxLen = 4
 SPECIFICATION MCSpec
 INVARIANT Confined
 INVARIANT Uniform
